@@ -32,6 +32,7 @@ from lib import common
 
 sys.path.insert(0, os.path.join(common.VERIF, "harness", "ffi"))
 import ffigen  # noqa: E402
+from checks.parts import hashtab  # noqa: E402
 
 CORPUS = os.path.join(common.VERIF, "corpus", "C17")
 MODEL = os.path.join(common.BUILD, "ocaml", "ffi", "run")
@@ -355,6 +356,11 @@ def run(ctx):
         with common.Lock("ocaml"):
             shutil.copy2(MODEL, os.path.join(tmp, "ffimodel-run"))
         _run(ctx, tmp, nevrun)
+        # library handle cache (back/dlcache.c): model/proofs in coq/Hash, Properties_C17b.v
+        t0 = time.time()
+        hashtab.run_dlcache(ctx, lib)
+        hashtab.run_dlcache_e2e(ctx, nevrun, tmp)
+        ctx.coverage.setdefault("timing", {})["dlcache_s"] = round(time.time() - t0, 1)
     finally:
         shutil.rmtree(tmp, ignore_errors=True)
     ctx.coverage["wall_s_check"] = round(time.time() - t_start, 1)
